@@ -89,6 +89,41 @@ func LoadEngine(repo, contractsDir string, patterns []string) (*Engine, error) {
 		}
 		e.funcsByKey[e.funcKey(fn)] = fn
 	}
+	// methods of types that are never converted to an interface are not "reachable" for
+	// ssautil.AllFunctions: add the method sets of every named type of the packages under contract
+	for _, sp := range prog.AllPackages() {
+		pp := sp.Pkg.Path()
+		need := false
+		for _, c := range e.ss.Contracts {
+			if c.Pkg == pp {
+				need = true
+				break
+			}
+		}
+		if !need {
+			continue
+		}
+		for _, m := range sp.Members {
+			tm, ok := m.(*ssa.Type)
+			if !ok {
+				continue
+			}
+			if _, isI := tm.Type().Underlying().(*types.Interface); isI {
+				continue
+			}
+			for _, t := range []types.Type{tm.Type(), types.NewPointer(tm.Type())} {
+				ms := prog.MethodSets.MethodSet(t)
+				for i := 0; i < ms.Len(); i++ {
+					if fn := prog.MethodValue(ms.At(i)); fn != nil && fn.Synthetic == "" {
+						k := e.funcKey(fn)
+						if _, ok := e.funcsByKey[k]; !ok {
+							e.funcsByKey[k] = fn
+						}
+					}
+				}
+			}
+		}
+	}
 	e.loadTime = time.Since(t0)
 	return e, nil
 }
